@@ -1,86 +1,126 @@
 /-
-C13 — witnesses: the *pinned* source (`Variant.current`) violates the fail-stop property.  Each theorem is the
-negation of a clause of Sqfs/Props/C13.lean on the model of the current code, with a concrete fault script;
-each has been replayed on the real tools (tools/checks/c13.py, known_findings.d/C13.json).
+C13 — witnesses.
+
+(1) /repo as it is (`Variant.current`) violates `failure_never_leaves_output`: relative output name × pack
+    directory.  Replayed on the real tool on every run of tools/checks/c13.py (cases `gen-rel*`); listed in
+    known_findings.d/C13.json until fixes/C13-relative-output-with-packdir.patch is committed.
+(2) Regression witnesses: the source as first pinned (`Variant.snapshot`) violated three more clauses; the
+    repairs are part of /repo now, and the check reports a revert as a VIOLATION (the real runs then match
+    neither `current` nor `fixed`).
 -/
 import Sqfs.Model.FailStop
 import Sqfs.Model.FailStopBlockProc
 namespace Sqfs.Witness.C13
 open Sqfs.FailStop
 
-/-- gensquashfs with a pack file, one file with an all-zero tail, export table -/
-def cfg : Cfg := { tool := .gensquashfs, packFile := true, nfiles := 1, sparseTails := 1, exportable := true }
+/-! ### (1) the defect of the current source -/
 
-/-- D15c.  A failure inside `sqfs_writer_init` after the output file was created (here: writing the provisional
-    super block, init.c:112) makes the packer exit 1 *without* removing the file: `main` returns before
-    `sqfs_writer_cleanup` (mkfs.c:107-108) and init.c's `fail_file:` only drops the object. -/
-theorem init_failure_leaves_output :
-    ∃ fs, (run .current cfg fs).status ≠ 0 ∧ (run .current cfg fs).out = .present ∧
-          (run .current cfg fs).cleanupReached = false :=
-  ⟨single 8, by decide⟩
+/-- `gensquashfs -F packfile -D in rel.sqfs`, one file to pack -/
+def relCfg : Cfg := { tool := .gensquashfs, packFile := true, packDir := true, relOut := true, nfiles := 1 }
 
-/-- …for every site of `sqfs_writer_init` behind the `open` the same happens (positions 2..17 of the program). -/
-theorem init_failure_leaves_output_all :
-    ∀ k : Fin 18, 2 ≤ k.val →
-      (run .current cfg (single k.val)).status = 1 ∧ (run .current cfg (single k.val)).out = .present := by
+/-- position of `pack_file` for the first file: behind the `chdir` -/
+example : sitePos .current relCfg (.packFile 0) = some 22 ∧ sitePos .current relCfg .chdirPack = some 21 := by decide
+
+/-- **The partial output file stays behind.**  `pack_file` fails (the pack file names an input that does not
+    exist, a read error, an allocation failure …): `main` does `goto out`, `sqfs_writer_cleanup(&sqfs,
+    EXIT_FAILURE)` is reached and calls `unlink("rel.sqfs")` — from inside the pack directory, where the name
+    does not designate the output file.  Exit status 1, output present. -/
+theorem relative_output_left_behind :
+    (run .current relCfg (single 22)).status = 1 ∧
+    (run .current relCfg (single 22)).cleanupReached = true ∧
+    (run .current relCfg (single 22)).trace.cwd = .pack ∧
+    (run .current relCfg (single 22)).unlinkHit = some false ∧
+    (run .current relCfg (single 22)).out = .present := by
   decide
 
-/-- The clause `failure_never_leaves_output` is false for the pinned source. -/
-theorem not_failure_never_leaves_output :
+/-- …and so does every later failure: the rest of `pack_files` and all of `sqfs_writer_finish`
+    (positions 22..29 of the program); a failing `chdir` itself (21) and everything before it are harmless. -/
+theorem relative_output_left_behind_all :
+    ∀ k : Fin 30, (22 ≤ k.val → (run .current relCfg (single k.val)).out = .present) ∧
+                  (k.val ≤ 21 → (run .current relCfg (single k.val)).out ≠ .present) := by
+  decide
+
+/-- The clause `failure_never_leaves_output` is false for /repo as it is. -/
+theorem not_failure_never_leaves_output_current :
     ¬ ∀ (c : Cfg) (fs : List Bool), (run .current c fs).status ≠ 0 → (run .current c fs).out ≠ .present := by
   intro h
-  exact h cfg (single 8) (by decide) (by decide)
+  exact h relCfg (single 22) (by decide) (by decide)
 
-/-- position of `exportAddRoot` in the program of `cfg` -/
-example : sitePos cfg .exportAddRoot = some 26 := by decide
-example : sitePos cfg (.sparseTail 0) = some 22 := by decide
+/-- With fixes/C13-relative-output-with-packdir.patch the same failure (one position later: `realpath` is a new
+    site) removes the file; a failing `realpath` itself happens before the `chdir` and is harmless too. -/
+theorem relative_output_removed_when_fixed :
+    sitePos .fixed relCfg (.packFile 0) = some 23 ∧
+    (run .fixed relCfg (single 23)).status = 1 ∧ (run .fixed relCfg (single 23)).trace.cwd = .pack ∧
+    (run .fixed relCfg (single 23)).unlinkHit = some true ∧ (run .fixed relCfg (single 23)).out = .unlinked ∧
+    sitePos .fixed relCfg .realpathOut = some 18 ∧ (run .fixed relCfg (single 18)).out = .unlinked := by
+  decide
 
-/-- D15b.  `add_export_table_entry` failing inside `sqfs_dir_writer_write_export_table` (dir_writer.c:443-445
-    `if (ret) return 0;`): exit status 0, the export table is not written — the output-producing steps differ
-    from the fault-free run. -/
+/-- `-D .`: the pack directory is the directory the process is in anyway — nothing is left behind. -/
+theorem relative_output_packdir_is_cwd :
+    (run .current { relCfg with packDirIsCwd := true } (single 22)).out = .unlinked := by
+  decide
+
+/-! ### (2) regression witnesses against the first pinned source -/
+
+/-- gensquashfs with a pack file, one file, export table -/
+def cfg : Cfg := { tool := .gensquashfs, packFile := true, nfiles := 1, exportable := true }
+
+/-- D15c.  A failure inside `sqfs_writer_init` after the output file was created (here: writing the provisional
+    super block) made the packer exit 1 *without* removing the file: `main` returns before
+    `sqfs_writer_cleanup` and init.c's `fail_file:` only dropped the object.  Repaired: C13-init-unlink. -/
+theorem init_failure_leaves_output :
+    ∃ fs, (run .snapshot cfg fs).status ≠ 0 ∧ (run .snapshot cfg fs).out = .present ∧
+          (run .snapshot cfg fs).cleanupReached = false :=
+  ⟨single 8, by decide⟩
+
+/-- …for every site of `sqfs_writer_init` behind the `open` the same happened (positions 2..17). -/
+theorem init_failure_leaves_output_all :
+    ∀ k : Fin 18, 2 ≤ k.val →
+      (run .snapshot cfg (single k.val)).status = 1 ∧ (run .snapshot cfg (single k.val)).out = .present ∧
+      (run .current cfg (single k.val)).out = .unlinked := by
+  decide
+
+example : sitePos .snapshot cfg .exportAddRoot = some 25 := by decide
+
+/-- D15b.  `add_export_table_entry` failing inside `sqfs_dir_writer_write_export_table` (`if (ret) return 0;`):
+    exit status 0, the export table not written.  Repaired: C13-export-table-result. -/
 theorem export_table_fault_unreported :
-    (run .current cfg (single 26)).status = 0 ∧
-    (run .current cfg (single 26)).trace.ops ≠ (faultFree .current cfg).trace.ops ∧
-    Op.done .exportWrite ∈ (faultFree .current cfg).trace.ops ∧
-    Op.done .exportWrite ∉ (run .current cfg (single 26)).trace.ops := by
+    (run .snapshot cfg (single 25)).status = 0 ∧
+    (run .snapshot cfg (single 25)).trace.ops ≠ (faultFree .snapshot cfg).trace.ops ∧
+    Op.done .exportWrite ∈ (faultFree .snapshot cfg).trace.ops ∧
+    Op.done .exportWrite ∉ (run .snapshot cfg (single 25)).trace.ops ∧
+    (run .current cfg (single 25)).status = 1 := by
   decide
 
-/-- D15a (skeleton level).  The inode growth for an all-zero tail fails (backend.c:141, result dropped): exit 0
-    with a damaged step. -/
-theorem sparse_tail_fault_unreported_skeleton :
-    (run .current cfg (single 22)).status = 0 ∧
-    Op.damaged (.sparseTail 0) ∈ (run .current cfg (single 22)).trace.ops ∧
-    (run .current cfg (single 22)).trace.ops ≠ (faultFree .current cfg).trace.ops := by
-  decide
-
-/-- The clause `exit0_output_eq_fault_free` is false for the pinned source. -/
-theorem not_exit0_output_eq_fault_free :
-    ¬ ∀ (c : Cfg) (fs : List Bool), (run .current c fs).status = 0 → run .current c fs = faultFree .current c := by
+/-- The clause `exit0_output_eq_fault_free` was false for the snapshot. -/
+theorem not_exit0_output_eq_fault_free_snapshot :
+    ¬ ∀ (c : Cfg) (fs : List Bool), (run .snapshot c fs).status = 0 → run .snapshot c fs = faultFree .snapshot c := by
   intro h
-  have := h cfg (single 22) (by decide)
+  have := h cfg (single 25) (by decide)
   revert this
   decide
 
-/-- D15a (block processor level).  A processor whose pool holds one completed all-zero tail fragment: `sync`
-    dequeues it, `set_block_size` fails (second primitive), the call returns 0. -/
+/-- D15a (block processor).  A processor whose pool holds one completed all-zero tail fragment: `sync`
+    dequeues it, `set_block_size` fails (second primitive), the call returned 0.  Repaired:
+    C13-sparse-tail-result. -/
 def procWithSparseTail : BP.Proc :=
   { backlog := 1, pool := [{ size := 3, isFrag := true, zero := true, first := true }] }
 
 theorem sparse_tail_fault_unreported :
-    (BP.runCall .current 3 .sync procWithSparseTail [false, true]).1 =
+    (BP.runCall .snapshot 3 .sync procWithSparseTail [false, true]).1 =
       ⟨true, none, true, true, [.poolDequeue, .growSparseTail]⟩ := by
   decide
 
-/-- …while the repaired source reports it. -/
-theorem sparse_tail_fault_reported_when_fixed :
-    (BP.runCall .fixed 3 .sync procWithSparseTail [false, true]).1 =
+/-- …while /repo as it is reports it. -/
+theorem sparse_tail_fault_reported_now :
+    (BP.runCall .current 3 .sync procWithSparseTail [false, true]).1 =
       ⟨false, some .fault, true, false, [.poolDequeue, .growSparseTail]⟩ := by
   decide
 
-/-- The clause `blockproc_error_propagates` is false for the pinned source. -/
-theorem not_blockproc_error_propagates :
+/-- The clause `blockproc_error_propagates` was false for the snapshot. -/
+theorem not_blockproc_error_propagates_snapshot :
     ¬ ∀ (fuel : Nat) (a : BP.Api) (p : BP.Proc) (fs : List Bool),
-        (BP.runCall .current fuel a p fs).1.faulted = true → (BP.runCall .current fuel a p fs).1.ok = false := by
+        (BP.runCall .snapshot fuel a p fs).1.faulted = true → (BP.runCall .snapshot fuel a p fs).1.ok = false := by
   intro h
   have := h 3 .sync procWithSparseTail [false, true] (by decide)
   revert this
